@@ -73,6 +73,8 @@ VOCAB = [
     # calls of parameterised passages with too many / too few / doubly supplied arguments
     ":: A(p)", ":: A(p, q=1)", ":: B(x=1)", "-> A(1, 2, 3)", "+ [a] -> A(1, 2, 3)", "-> A(1, p=2)", "+ [a] -> A(q=1)", "-> B(1, 2)", "* [a] -> B(1, x=2)",
     "-> A()", "+ [a] -> A(1, 2, q=3, q=4)", "-> A(\"fine :)\")", "+ [a] -> A(\":(\")", "-> A(')')", "+ [a] -> B(x=\"(\")",
+    # a carriage return inside a line (Python's parser takes it for a line end, the compiler's split("\n") does not)
+    "~ x \r= 1", "~ y = (\r", "~ z = 1 +\r\r", "~ items \r\r\r= [", "@if a\r:", "{x\r +}",
     # defaults that are strings holding commas and name=value look-alikes
     ":: H(text=\"stock=3, price=5\")", ":: H(a, b=\"x, y=1\")", ":: H(t='a, b')", "-> H", "+ [a] -> H(\"x\")", "-> H(1)",
     # attribute named like the token's own field; comments around @metadata; old markers after @join
